@@ -251,12 +251,12 @@ func PoolFor(params [3]uint64) *Pool {
 	return p
 }
 
-// WithFresh returns a copy of the pool in which the fast key types (Ed25519, P-256) are served by n keys derived
-// from rng instead of the shared ones: runs that use it present key material no earlier run of the process has
+// WithFresh returns a copy of the pool in which every key type is served by n keys derived from rng instead of the
+// shared ones: runs that use it present key material no earlier run of the process has
 // shown to the library (process-level state that accumulates per distinct key only grows this way).
 func (p *Pool) WithFresh(rng *core.RNG, n int) *Pool {
 	q := &Pool{Keys: append([]*Key{}, p.Keys...), ByType: p.ByType}
-	for _, t := range []KeyType{Ed25519, P256} {
+	for t := KeyType(0); t < numKeyTypes; t++ {
 		var idxs []int
 		for i := 0; i < n; i++ {
 			k := deriveKey(t, rng)
